@@ -1,28 +1,146 @@
 package trzsz
 
-import "path/filepath"
+// C09 — received files can only be created inside the chosen destination directory.
+// Peer-supplied names travel through the real decode entry points (recvFileName, recvFileNameV3, the archive
+// writer's header parser) into the real createFile/createDirOrFile and the real path/filepath.Join/Clean.
+// The file system is the stub FS (symbolic build) or a sandbox directory (native replay).
 
-func verifNondetByte() byte
-func verifNondetRange(lo, hi int) int
-func verifAssume(bool)
-func verifAssert(bool, string)
-func verifReach(string)
+type zzSink9 struct{ data []byte }
 
-func zzInside(dest, p string) bool {
-	if len(p) <= len(dest) {
-		return false
-	}
-	return p[:len(dest)] == dest && p[len(dest)] == '/'
+func (s *zzSink9) Write(p []byte) (int, error) {
+	s.data = append(s.data, p...)
+	return len(p), nil
 }
 
-func zzH_C09_join() {
-	n := verifNondetRange(1, 3)
+// zzPeerName: 0..max bytes chosen by the peer. ASCII without NUL: bytes >= 0x80 cannot travel through JSON
+// unchanged and the OS rejects NUL, so neither can name a file.
+func zzPeerName(max int) string {
+	n := verifNondetRange(0, max)
 	b := make([]byte, n)
 	for i := range b {
-		b[i] = verifNondetByte()
+		c := verifNondetByte()
+		verifAssume(c != 0)
+		verifAssume(c < 0x80)
+		b[i] = c
 	}
-	name := string(b)
-	p := filepath.Join("/d", name)
-	verifAssert(zzInside("/d", p), "joined path escapes destination")
-	verifReach("join")
+	return string(b)
+}
+
+func zzPeerPathList() []string {
+	k := verifNondetRange(1, verifBound("ELEMS"))
+	rel := make([]string, k)
+	for i := range rel {
+		rel[i] = zzPeerName(verifBound("BYTES"))
+	}
+	return rel
+}
+
+func zzRecvTransfer9() (*trzszTransfer, string) {
+	root := verifFSRoot()
+	verifFSSymbolicExists()
+	verifFSBegin()
+	t := newTransfer(&zzSink9{}, nil, false, nil)
+	t.transferConfig.Timeout = 0
+	t.transferConfig.Overwrite = verifNondetBool()
+	return t, root
+}
+
+func zzUse9(f fileWriter) {
+	if f != nil {
+		f.Write([]byte{'x'}) // what a receiver does next: store payload
+		f.Close()
+	}
+}
+
+// protocol 1/2 NAME message: a plain name, or (directory mode) a JSON record with a path list
+func zzH_C09_recvName() {
+	t, root := zzRecvTransfer9()
+	var name string
+	if verifNondetBool() {
+		t.transferConfig.Directory = true
+		src := &sourceFile{PathID: 0, RelPath: zzPeerPathList(), IsDir: verifNondetBool()}
+		js, err := src.marshalSourceFile()
+		verifAssume(err == nil)
+		name = js
+	} else {
+		name = zzPeerName(verifBound("PLAIN"))
+	}
+	t.buffer.addBuffer([]byte("#NAME:" + encodeString(name) + "\n"))
+	f, _, err := t.recvFileName(root, nil)
+	zzUse9(f)
+	verifAssert(!verifFSEscaped(), "created, written or removed outside the destination")
+	if err == nil {
+		verifReach("accepted")
+	} else {
+		verifAssert(verifFSMutations() == 0 || !verifFSEscaped(), "refused after touching something outside")
+		verifReach("refused")
+	}
+}
+
+// protocol 3/4 NAME message (always a JSON record; the file is opened without truncation and then resumed)
+func zzH_C09_recvNameV3() {
+	t, root := zzRecvTransfer9()
+	t.transferConfig.Protocol = 3
+	t.transferConfig.Directory = verifNondetBool()
+	src := &sourceFile{PathID: 0, RelPath: zzPeerPathList(), IsDir: verifNondetBool()}
+	js, err := src.marshalSourceFile()
+	verifAssume(err == nil)
+	t.buffer.addBuffer([]byte("#NAME:" + encodeString(js) + "\n"))
+	f, _, err := t.recvFileNameV3(root, nil)
+	zzUse9(f)
+	verifAssert(!verifFSEscaped(), "created, written or removed outside the destination")
+	if err == nil {
+		verifReach("accepted")
+	} else {
+		verifReach("refused")
+	}
+}
+
+// archive stream: the top-level directory is legitimate, the entry header inside the stream is the peer's
+func zzH_C09_archive() {
+	t, root := zzRecvTransfer9()
+	t.transferConfig.Protocol = 4
+	t.transferConfig.Directory = true
+	top := &sourceFile{PathID: 0, RelPath: []string{"d"}, IsDir: true, Archive: true}
+	w, _, err := t.createDirOrFile(root, top, false)
+	verifAssume(err == nil)
+	verifAssume(w != nil)
+	rel := append([]string{"d"}, zzPeerPathList()...)
+	if verifNondetBool() {
+		rel = zzPeerPathList() // the first element need not repeat the announced directory
+	}
+	isDir := verifNondetBool()
+	ent := &sourceFile{PathID: 0, RelPath: rel, IsDir: isDir}
+	if !isDir {
+		ent.Size = 1
+	}
+	js, err := ent.marshalSourceFile()
+	verifAssume(err == nil)
+	stream := []byte(encodeString(js) + "\n")
+	if !isDir {
+		stream = append(stream, 'x')
+	}
+	err = writeAll(w, stream)
+	w.Close()
+	verifAssert(!verifFSEscaped(), "created, written or removed outside the destination")
+	if err == nil {
+		verifReach("accepted")
+	} else {
+		verifReach("refused")
+	}
+}
+
+// stop-and-delete after a receive: only paths inside the destination are removed
+func zzH_C09_delete() {
+	t, root := zzRecvTransfer9()
+	t.transferConfig.Directory = true
+	src := &sourceFile{PathID: 0, RelPath: zzPeerPathList(), IsDir: verifNondetBool()}
+	js, err := src.marshalSourceFile()
+	verifAssume(err == nil)
+	t.buffer.addBuffer([]byte("#NAME:" + encodeString(js) + "\n"))
+	f, _, _ := t.recvFileName(root, nil)
+	zzUse9(f)
+	t.deleteCreatedFiles()
+	verifAssert(!verifFSEscaped(), "created, written or removed outside the destination")
+	verifReach("deleted")
 }
